@@ -110,11 +110,28 @@ PROPS = {
              shards=(8, 16), n=(2, 40), race=True,
              trusted=["absence of data races is OBSERVED by the Go race detector on the explored schedules, not proved: the Go memory model is outside any Lean model of this code",
                       "the interleaving theorem covers the loader/cache logic at the granularity get / fetch / set"]),
+    "C12": P("cases = (a) generated documents incl. empty strings, and 25 hand-written shapes (empty string as value / typed value / id / type / key / reference, 2- and 3-cycles through IRI and blank references, self reference, shared "
+             "IRI and blank nodes, deep nesting, top-level array/null/number, graph in graph, lists, language tags, huge numbers), path parts \"\" and 15-part paths; (b) binary forms: every entry count in {-1, -2^31, -2^62, 0, n-1, n+1, 2^20, "
+             "2^31, 2^40, 2^62} x version in {1,0,2,-1}, malformed compacted JSON, negative root, missing safe-mode token, wrong key/entry kinds, truncation at 40 offsets, entry tags/kinds/truncations, byte-mutation fuzz; "
+             "(c) JSON decoders: DID document with every member removed / replaced by 13 values of other JSON types, 22 raw texts through the credential, Authentication and GistInfoProof decoders; (d) verification of a credential "
+             "carrying a BJJ and an SMT proof with every member of the JSON form removed (singly, in pairs) or replaced, under 4 resolver modes x 4 proof types; every member of the status answer removed; (e) HashValue over "
+             "10 datatypes x 44 Go values + random numeric texts; (f) datasets with cycles / shared nodes vs the model. Oracle: returns within 6 s under recover, a memory watchdog and a fatal-crash note; not (nil,nil). "
+             "non-trivial = every case; distinct = distinct (kind,input) hashes",
+             shards=(8, 16), n=(6, 60),
+             trusted=["byte-level totality of encoding/gob, encoding/json and json-gold is OBSERVED (structured enumeration + mutation fuzzing), not proved: it is outside any model",
+                      "go-merkletree-sql's JSON decoder for proofs (see known finding F6)"]),
 }
 
 NOT_APPLICABLE = {}
 
 MANIFEST_TEXT = {
+    "C12": dict(
+        text="Lean: every model function is total (no `partial`, termination checked); named unreachable bad outcomes: the parent walk is bounded and a reference cycle is an error for every fuel (path_bounded, entries_no_diverge), a negative or "
+             "oversized entry count is an error before allocation (unmarshal_count_guard), a hasher yielding no element makes value / key hashing an error (enc_total_string, keyHash_total), every combination of absent optional members of "
+             "proof, issuer data, state and resolver answer is an error for both verifiers and the status validation (verify_no_panic_bjj, verify_no_panic_smt, status_missing_state). Tie/observation: structured enumeration of malformed "
+             "artefacts and mutation fuzzing against the real entry points under recover + watchdogs; datasets vs the model.",
+        note="PARTIAL: the byte-level behaviour of gob/json/json-gold decoders is observed, not proved. Found and fixed here: D2 (entry count), D10 (empty string => nil hash), D3 (nil dereferences), Authentication.UnmarshalJSON on empty input; "
+             "D1 (cycle hang) via C01. Known finding F6: a null sibling in a Merkle proof's JSON panics inside go-merkletree-sql's decoder."),
     "C19": dict(
         text="Lean theorems (Gsp.Props.C19 over the loader state machine Gsp.Loader): CacheInv (every cached document was received earlier in a storable response with exactly that response's expiry; nothing received in the future; embedded URLs never "
              "enter the mutable cache) holds initially, is preserved by every operation and hence along any history (inv_init, inv_step, inv_run); load_fresh - a returned document is the origin's current one, or a storable one whose lifetime has not "
